@@ -624,10 +624,12 @@ class SymInt:
         raise Unsupported("float() of a symbolic int outside the float model")
 
     def __format__(self, spec):
-        return "⟦%s:%s⟧" % (term_token(self.t), spec)
+        from . import text
+        return text.tok(spec, self)
 
     def __str__(self):
-        return "⟦%s⟧" % term_token(self.t)
+        from . import text
+        return text.tok("d", self)
 
     def __repr__(self):
         return "SymInt(%s,[%d,%d])" % (z3.simplify(self.t), self.lo, self.hi)
@@ -769,12 +771,15 @@ class SymFloat:
         raise Unsupported("float() of symbolic float")
 
     def __format__(self, spec):
-        return "⟦%s:%s⟧" % (term_token(self.t), spec)
+        from . import text
+        return text.tok(spec or "r", self)
 
     def __str__(self):
-        return "⟦%s⟧" % term_token(self.t)
+        from . import text
+        return text.tok("r", self)
 
-    __repr__ = __str__
+    def __repr__(self):
+        return "SymFloat(%s)" % term_token(self.t)
 
 
 # --------------------------------------------------------------------------------------
